@@ -111,24 +111,50 @@ def Ref.leafPtr : Ref → Ptr
   | .fls | .reg _ => .fls
   | .lit v pol => .lit v pol
 
-mutual
+/-- a node with its children resolved by `f` -/
+def unfoldNodeWith (f : Ref → Ptr) : Node → Bool → Ptr
+  | .bdd l idx lo hi, c => .bdd c l idx (f lo) (f hi)
+  | .dec idx es, c => .dec c idx (es.map fun e => (f e.1, f e.2))
+
 /-- the tree a reference denotes -/
 def unfold : Store → Ref → Ptr
   | [], r => r.leafPtr
   | n :: rest, r =>
     match r with
-    | .reg i => if i = rest.length then unfoldNode rest n false else unfold rest r
-    | .compl i => if i = rest.length then unfoldNode rest n true else unfold rest r
+    | .reg i => if i = rest.length then unfoldNodeWith (unfold rest) n false else unfold rest r
+    | .compl i => if i = rest.length then unfoldNodeWith (unfold rest) n true else unfold rest r
     | r => r.leafPtr
-def unfoldNode : Store → Node → Bool → Ptr
-  | rest, .bdd l idx lo hi, c => .bdd c l idx (unfold rest lo) (unfold rest hi)
-  | rest, .dec idx es, c => .dec c idx (unfoldElems rest es)
-def unfoldElems : Store → List (Ref × Ref) → List (Ptr × Ptr)
-  | _, [] => []
-  | rest, (p, s) :: es => (unfold rest p, unfold rest s) :: unfoldElems rest es
-end
 
-mutual
+/-- the `u128` sum of `SddAnd::semantic_hash` over the elements; `f` is
+`cached_semantic_hash` on the children -/
+def cachedElemsWith (P : Nat) (f : Ref → HashCache → Nat × HashCache) :
+    List (Ref × Ref) → HashCache → Nat × HashCache
+  | [], c => (0, c)
+  | (p, s) :: es, c =>
+    let a := f p c
+    let b := f s a.2
+    let r := cachedElemsWith P f es b.2
+    (Sem.ffMul P a.1 b.1 + r.1, r.2)
+
+/-- `BinarySDD::cached_semantic_hash` / `SddOr::cached_semantic_hash` of node `i` -/
+def cachedNodeWith (P : Nat) (w : Weights Nat) (f : Ref → HashCache → Nat × HashCache) :
+    Node → Nat → HashCache → Nat × HashCache
+  | .bdd l _ lo hi, i, c =>
+    match c i with
+    | some h => (Sem.ffNew P h, c)
+    | none =>
+      let a := f lo c
+      let b := f hi a.2
+      let v := Sem.ffAdd P (Sem.ffMul P a.1 (w l).1) (Sem.ffMul P b.1 (w l).2)
+      (v, fun j => if j = i then some v else b.2 j)
+  | .dec _ es, i, c =>
+    match c i with
+    | some h => (Sem.ffNew P h, c)
+    | none =>
+      let a := cachedElemsWith P f es c
+      let v := Sem.ffNew P a.1
+      (v, fun j => if j = i then some v else a.2 j)
+
 /-- `SddPtr::cached_semantic_hash::<P>`: a regular pointer reads its node's cache (whatever prime
 and weight map filled it) or computes and stores; a complemented pointer negates the regular
 pointer's hash -/
@@ -139,38 +165,13 @@ def cachedHash (P : Nat) (w : Weights Nat) : Store → Ref → HashCache → Nat
   | [], .reg _, c => (Sem.ffNew P 0, c)
   | [], .compl _, c => (Sem.ffNew P 1, c)
   | n :: rest, .reg i, c =>
-    if i = rest.length then cachedNode P w rest n i c else cachedHash P w rest (.reg i) c
+    if i = rest.length then cachedNodeWith P w (cachedHash P w rest) n i c
+    else cachedHash P w rest (.reg i) c
   | n :: rest, .compl i, c =>
     if i = rest.length then
-      let a := cachedNode P w rest n i c
+      let a := cachedNodeWith P w (cachedHash P w rest) n i c
       (Sem.ffNegate P a.1, a.2)
     else cachedHash P w rest (.compl i) c
-/-- `BinarySDD::cached_semantic_hash` / `SddOr::cached_semantic_hash` of node `i` -/
-def cachedNode (P : Nat) (w : Weights Nat) : Store → Node → Nat → HashCache → Nat × HashCache
-  | rest, .bdd l _ lo hi, i, c =>
-    match c i with
-    | some h => (Sem.ffNew P h, c)
-    | none =>
-      let a := cachedHash P w rest lo c
-      let b := cachedHash P w rest hi a.2
-      let v := Sem.ffAdd P (Sem.ffMul P a.1 (w l).1) (Sem.ffMul P b.1 (w l).2)
-      (v, fun j => if j = i then some v else b.2 j)
-  | rest, .dec _ es, i, c =>
-    match c i with
-    | some h => (Sem.ffNew P h, c)
-    | none =>
-      let a := cachedElems P w rest es c
-      let v := Sem.ffNew P a.1
-      (v, fun j => if j = i then some v else a.2 j)
-/-- the `u128` sum of `SddAnd::semantic_hash` over the elements -/
-def cachedElems (P : Nat) (w : Weights Nat) : Store → List (Ref × Ref) → HashCache → Nat × HashCache
-  | _, [], c => (0, c)
-  | rest, (p, s) :: es, c =>
-    let a := cachedHash P w rest p c
-    let b := cachedHash P w rest s a.2
-    let r := cachedElems P w rest es b.2
-    (Sem.ffMul P a.1 b.1 + r.1, r.2)
-end
 
 /-- a sequence of `cached_semantic_hash` calls on roots of one store, threading the cache -/
 def cachedHashes (P : Nat) (w : Weights Nat) (s : Store) : List Ref → HashCache → List Nat × HashCache
